@@ -1337,6 +1337,22 @@ where
     spatial_index: Option<HashGridIndex<K::Scalar, D>>,
 }
 
+impl<K, U, V, const D: usize> DelaunayTriangulation<K, U, V, D>
+where
+    K: Kernel<D>,
+    U: DataType,
+    V: DataType,
+{
+    /// Drops the performance-only insertion caches (locate hint and spatial index).
+    ///
+    /// Must be called by any code path that changes the vertex set without going through
+    /// [`insert`](Self::insert); the index is re-seeded lazily on the next insertion.
+    pub(crate) fn invalidate_insertion_caches(&mut self) {
+        self.insertion_state.last_inserted_cell = None;
+        self.spatial_index = None;
+    }
+}
+
 // Most common case: f64 with FastKernel, no vertex or cell data
 impl<const D: usize> DelaunayTriangulation<FastKernel<f64>, (), (), D> {
     /// Create a Delaunay triangulation from vertices with no data (most common case).
